@@ -34,6 +34,8 @@ def simple(L, out, tree_names):
     m = L.match(r"local (%s) = buf\(offset, (\d+)\):(%s)\(\)" % (ID, ID))
     if m:
         rd = m[0].group(3)
+        if rd == "string":      # a fixed-string member read for a match key: tvbrange:string()
+            return ["localstr", m[0].group(1), 0, ["n", int(m[0].group(2))]]
         if rd not in READ:
             out["issues"].append("unknown buffer read :%s()" % rd)
         return ["local", m[0].group(1), int(m[0].group(2)), READ.get(rd, False)]
